@@ -107,6 +107,15 @@ CLAIMS = {
         "point is the curve point at the returned parameter and no farther from the query than any coarse sample and the end point. Discretised length on f64 with TLC-verified chord/polygon "
         "witnesses: chord <= L_n <= polygon and L_n <= L_2n. Curves with irrational derivative roots are not examined."),
   design="§6 C15, §12"),
+ "C19": dict(
+  technique="TLA+ spec of element placement (VekVec: conversions, swizzles, shuffles, colour tables) over opaque terms; calls recorded from the real code on an opaque-term element type validated structurally by TLC trace validation; all shuffle index tuples enumerated",
+  text=("Run on an opaque term element type (so the result holds for every element value by parametricity), every conversion between vector kinds and sizes (order kept, trailing dropped, zero / "
+        "supplied scalar / w=1 / w=0 / full or zero alpha appended), the six matrix size conversions in both layouts, every named swizzle and with_* setter, the 4-lane shuffles for every index tuple "
+        "in 0..7 (thorough: all 4096; quick: all 256 in-range masks and a stride of the rest, plus indices far out of range) on Vec4 and Rgba, the fixed shuffles / interleaves / moves, ShuffleMask4 "
+        "constructors and to_indices, named colours, unit vectors and deprecated direction names and the colour helpers are recorded and compared by TLC with the specification's lane tables; full() "
+        "and the inverted_rgb involution are checked on values for all 18 ColorComponent types; TLC checks on the specification that embedding a smaller matrix and vector commutes with "
+        "multiplication."),
+  design="§6 C19, §12"),
  "C17": dict(
   technique="TLA+ spec (VekOps/VekOpsAlgo) model-checked by TLC exhaustively per bit width; TLC-emitted result tables replayed into the real code (spec->code conformance)",
   text=("TLC checks exhaustively (every (x,lo,hi) of 5-bit types in quick, 8-bit in thorough) that the declarative operators satisfy the range laws of the "
